@@ -311,6 +311,20 @@ def run_dtype(ctx) -> RuleResult:
                                 if isinstance(node, ast.Attribute) and node.attr == "exponents":
                                     ops |= _operand_ids(ctx, module, node.value)
                             ops = {o for o in ops if o not in ("out",)}
+                            base = _exponents_base(exps) if isinstance(exps, ast.Attribute) else None
+                            if base is not None and isinstance(base, ast.Subscript) and isinstance(base.slice, ast.Constant):
+                                coll_text = _txt(base.value)
+                                dtext = _txt(dtype)
+                                if ("align_" in coll_text or coll_text.startswith("tuple(")) and dtext.startswith(coll_text + "["):
+                                    n += 1
+                                    result.ob(f"{module.name}.{qual}: buffer dtype not taken from a fixed element of the operand "
+                                              f"collection", False, module.loc(step.orig), dtext[:80])
+                                    result.add(Finding(
+                                        "R-DTYPE", module, qual, call,
+                                        f"the buffer that will receive every element of '{coll_text[:50]}' takes its dtype from "
+                                        f"{dtext[:60]}, one fixed element of that collection (whichever operand happens to come "
+                                        f"first): values of the other operands are cast down - are combined but dtype ignores them",
+                                        derivation=describe_path(path)))
                         coll = _collection_source(ctx, module, coefs if "coefficients" in params else None, step, func)
                         if coll is not None:
                             n += 1
@@ -563,4 +577,55 @@ def run_colidx(ctx) -> RuleResult:
     if n < 2:
         raise AnalysisError(f"R-COLIDX: only {n} sites found (confirmed in derivative)")
     result.floor = 2
+    return result
+
+
+def run_expdtype(ctx) -> RuleResult:
+    result = RuleResult(
+        "R-EXPDTYPE",
+        "arrays that are handed to a constructor as exponents= are created with an integer dtype of "
+        "their own, never with the coefficient dtype of a polynomial",
+    )
+    n = 0
+    for module, qual, func in ctx.repo.all_functions():
+        if module.is_pyx or "exponents" not in ast.unparse(func):
+            continue
+        seen = set()
+        for path in ctx.paths_auto(module, func):
+            for step in path:
+                for raw in step_exprs(step):
+                    for call in calls_in(raw):
+                        cname = _ctor(ctx, module, call)
+                        if cname is None or (id(call), id(step.vars)) in seen:
+                            continue
+                        seen.add((id(call), id(step.vars)))
+                        params = CONSTRUCTORS[cname]
+                        if "exponents" not in params:
+                            continue
+                        exps = _arg(step.expand(call), "exponents", params)
+                        if exps is None:
+                            continue
+                        for node in walk_shared(exps):
+                            if isinstance(node, ast.Call) and not is_S(node):
+                                name = ctx.dotted(module, node.func) or ""
+                                if name in ("numpy.zeros", "numpy.ones", "numpy.empty", "numpy.full", "numpy.array", "numpy.asarray"):
+                                    dt = kwarg(node, "dtype")
+                                    if dt is None:
+                                        continue
+                                    n += 1
+                                    text = _txt(dt)
+                                    bad = text.endswith(".dtype") or "._dtype" in text or "result_type" in text or "common_type" in text
+                                    result.ob(f"{module.name}.{qual}: exponent array created with dtype {text[:40]}", not bad,
+                                              module.loc(step.orig), "")
+                                    if bad:
+                                        result.add(Finding(
+                                            "R-EXPDTYPE", module, qual, call,
+                                            f"the exponent matrix is created with dtype={text[:60]} (a coefficient dtype): "
+                                            f"exponents are silently cast into it (bool collapses them to 1, int8 wraps at 128, "
+                                            f"float16 rounds) and a different monomial is stored",
+                                            derivation=describe_path(path)))
+    result.info["exponent_array_sites"] = n
+    if n < 3:
+        raise AnalysisError(f"R-EXPDTYPE: only {n} exponent array creations found")
+    result.floor = 3
     return result
